@@ -308,7 +308,7 @@ def run_batch(check, tier, verif_seed, procs=None, runs=None, wall=None, digests
     cfg = check.TIERS[tier]
     runs = runs if runs is not None else cfg["runs"]
     wall_budget = wall if wall is not None else cfg["wall"]
-    run_timeout = cfg.get("run_timeout", 180)
+    run_timeout = int(os.environ.get("VERIF_RUN_TIMEOUT") or cfg.get("run_timeout", 180))
     procs = procs or min(16, os.cpu_count() or 1)
     check._procs_used = procs
     t0 = time.time()
